@@ -302,11 +302,12 @@ def t_chunk(text):
 
 
 @rule("R10", "Definition of `for`: `for x in E {B}` -> `let mut it_ = E; loop { let Some(x) = it_.next() else { break }; B }` "
-             "(the iterator is the prelude's specified `Split`).")
+             "(the iterator is the prelude's specified `Split` / `HdrIter`; `for x in &C` uses `C.iter()`); over a slice variable "
+             "`for r in v {B}` -> `let mut i_ = 0; while i_ < v.len() { let r = &v[i_]; i_ += 1; B }`.")
 def r10(text):
     n = 0
     while True:
-        m = re.search(r"\bfor\s+(\w+)\s+in\s+", text)
+        m = re.search(r"\bfor\s+(\w+|\([\w\s,]+\))\s+in\s+(?=&|\w+\.split\(|\w+\s*\{)", text)
         if not m:
             break
         # iterator expression runs to the '{' opening the loop body
@@ -318,8 +319,14 @@ def r10(text):
             j += 1
         brace = m.end() + toks[j].start
         expr = text[m.end():brace].strip()
-        if expr.startswith("&mut "):
+        if re.fullmatch(r"\w+", expr):
+            # iteration over a slice by reference: element k, in order
+            head = "let mut i_: usize = 0; while i_ < %s.len() { let %s = &%s[i_]; i_ += 1;" % (expr, m.group(1), expr)
+        elif expr.startswith("&mut "):
             head = "loop { let Some(%s) = %s.next() else { break };" % (m.group(1), expr[5:].strip())
+        elif expr.startswith("&"):
+            # `for x in &C` is `for x in C.iter()` (IntoIterator for &C)
+            head = "let mut it_ = %s.iter(); loop { let Some(%s) = it_.next() else { break };" % (expr[1:].strip(), m.group(1))
         else:
             head = "let mut it_ = %s; loop { let Some(%s) = it_.next() else { break };" % (expr, m.group(1))
         text = text[:m.start()] + head + text[brace + 1:]
@@ -448,3 +455,133 @@ def r13(text):
 @rule("T_pubfields", "Struct fields made `pub` (visibility only, so that contracts may mention them).")
 def t_pubfields(text):
     return re.subn(r"(?m)^(\s+)(?!pub\b)(\w+\s*:)", r"\1pub \2", text)
+
+
+@rule("R8", "Definition of a one-element slice pattern: `if let [a] = &v[..] {A} else {B}` -> "
+            "`if v.len() == 1 { let a = &v[0]; A } else {B}`; a remaining full-range borrow `&v[..]` -> `v.as_slice()` "
+            "(definition of Vec::as_slice).")
+def r8(text):
+    t, n1 = re.subn(r"if\s+let\s+\[(\w+)\]\s*=\s*&(\w+)\[\.\.\]\s*\{", r"if \2.len() == 1 { let \1 = &\2[0];", text)
+    t, n2 = re.subn(r"&(\w+)\[\.\.\]", r"\1.as_slice()", t)
+    return t, n1 + n2
+
+
+@rule("R9", "Definition of `try_fold` over a slice with an Option accumulator: `V.iter().try_fold(INIT, |acc, r| BODY)` -> "
+            "`{ let mut acc_o = Some(INIT); let mut k_ = 0; while k_ < V.len() { let r = &V[k_]; if let Some(acc) = acc_o "
+            "{ acc_o = BODY; } k_ += 1; } acc_o }` (the loop gets its invariant from the overlay).")
+def r9(text):
+    n = 0
+    while True:
+        m = re.search(r"(\w+)\.iter\(\)\s*\.try_fold\(", text)
+        if not m:
+            break
+        o = m.end() - 1
+        toks = tokenize(text[o:])
+        c = o + toks[match_close(toks, 0)].start
+        inner = text[o + 1:c]
+        init, clos = inner.split(",", 1)
+        mm = re.match(r"\s*\|\s*(\w+)\s*,\s*(\w+)\s*\|\s*(.*)$", clos, re.S)
+        acc, r, body = mm.group(1), mm.group(2), mm.group(3).strip()
+        v = m.group(1)
+        rep = ("{ let mut acc_o: Option<u64> = Some(%s); let mut k_: usize = 0; while k_ < %s.len() { let %s = &%s[k_]; "
+               "if let Some(%s) = acc_o { acc_o = %s; } k_ += 1; } acc_o }") % (init.strip(), v, r, v, acc, body)
+        old = text[m.start():c + 1]
+        rep = " ".join(rep.split("\n")) if rep.count("\n") > old.count("\n") else rep + "\n" * (old.count("\n") - rep.count("\n"))
+        text = text[:m.start()] + rep + text[c + 1:]
+        n += 1
+    return text, n
+
+
+@rule("R11", "Const-pattern match on a PartialEq value: `match *method { Method::HEAD => A, _ => B }` -> "
+             "`if *method == Method::HEAD { A } else { B }`.")
+def r11(text):
+    n = 0
+    while True:
+        m = re.search(r"\bmatch\s+\*method\s*\{", text)
+        if not m:
+            break
+        o = m.end() - 1
+        toks = tokenize(text[o:])
+        c = o + toks[match_close(toks, 0)].start
+        inner = text[o + 1:c]
+        arms = [a for a in _split_top(inner) if a.strip()]
+        if len(arms) != 2:
+            break
+        p1, e1 = arms[0].split("=>", 1)
+        p2, e2 = arms[1].split("=>", 1)
+        if p2.strip() != "_":
+            break
+        rep = "if *method == %s { %s } else { %s }" % (p1.strip(), e1.strip(), e2.strip())
+        old = text[m.start():c + 1]
+        rep = rep + "\n" * max(0, old.count("\n") - rep.count("\n"))
+        text = text[:m.start()] + rep + text[c + 1:]
+        n += 1
+    return text, n
+
+
+@rule("R14", "Capacity hints removed: `X.reserve(..);` deleted (capacity of a growable Vec is not observable).")
+def r14(text):
+    n = 0
+    while True:
+        m = re.search(r"\b\w+\.reserve\(", text)
+        if not m:
+            break
+        o = m.end() - 1
+        toks = tokenize(text[o:])
+        c = o + toks[match_close(toks, 0)].start
+        e = c + 1
+        if text[e:e + 1] == ";":
+            e += 1
+        old = text[m.start():e]
+        text = text[:m.start()] + "\n" * old.count("\n") + text[e:]
+        n += 1
+    return text, n
+
+
+@rule("R23", "`\"<ASCII literal>\".len()` -> the integer constant (constant folding; Verus leaves str::len of a literal uninterpreted).")
+def r23(text):
+    def rep(m):
+        lit = m.group(1)
+        bs = decode_bytes_literal("b" + lit)
+        return "%dusize" % len(bs)
+    return re.subn(r"(\"(?:[^\"\\]|\\.)*\")\.len\(\)", rep, text)
+
+
+@rule("R28", "Ghost call log: `ent.get_range(X)` -> `ent.get_range(X, calls)` with a ghost parameter "
+             "`calls: &mut Ghost<Seq<(u64, u64)>>` threaded through serve_inner, so that 'which entity bytes were requested' "
+             "(and 'none for HEAD') can be a postcondition.")
+def r28(text):
+    n = 0
+    pos = 0
+    while True:
+        m = re.search(r"\bent\.get_range\(|\bserve_inner\(", text[pos:])
+        if not m:
+            break
+        o = pos + m.end() - 1
+        toks = tokenize(text[o:])
+        c = o + toks[match_close(toks, 0)].start
+        text = text[:c] + ", calls" + text[c:]
+        pos = c
+        n += 1
+    return text, n
+
+
+@rule("R29", "Definition of `bool::then`: `B.then(|| X)` -> `if B { Some(X) } else { None }`.")
+def r29(text):
+    n = 0
+    while True:
+        m = re.search(r"\.\s*then\(\s*\|\|", text)
+        if not m:
+            break
+        o = text.index("(", m.start())
+        toks = tokenize(text[o:])
+        c = o + toks[match_close(toks, 0)].start
+        inner = text[m.end():c].strip()
+        rs = _receiver_start(text, m.start())
+        recv = text[rs:m.start()].rstrip()
+        rep = "if %s { Some(%s) } else { None }" % (recv, inner)
+        old = text[rs:c + 1]
+        rep = rep + "\n" * max(0, old.count("\n") - rep.count("\n"))
+        text = text[:rs] + rep + text[c + 1:]
+        n += 1
+    return text, n
